@@ -13,6 +13,7 @@ import (
 	"net"
 	"net/http"
 	"net/netip"
+	"runtime"
 	"strings"
 	"sync"
 	"time"
@@ -28,7 +29,6 @@ import (
 	"github.com/miekg/dns"
 
 	"verifharness/lib/poolsan"
-	"verifharness/lib/wire"
 )
 
 // recorder wraps the entry executable and notes what the plugin chain returned.
@@ -193,7 +193,20 @@ func (b *built) Close() {
 	}
 	if b.m != nil {
 		b.m.CloseWithErr(nil)
-		_ = b.m.GetSafeClose().WaitClosed()
+		done := make(chan struct{})
+		go func() {
+			_ = b.m.GetSafeClose().WaitClosed()
+			close(done)
+		}()
+		t := time.NewTimer(closeWatchdog)
+		select {
+		case <-done:
+			t.Stop()
+		case <-t.C:
+			// Not this property's business (C07: Close releases everything), but the
+			// run must not hang on it: leak the instance, keep the witness.
+			noteCloseHang(b.comp)
+		}
 	}
 	if b.lu != nil {
 		b.lu.Close()
@@ -258,9 +271,10 @@ type sockets struct {
 	us *net.UDPConn
 	uc *net.UDPConn
 
+	udpIn chan []byte // datagrams read from the client socket
+
 	tl net.Listener
-	tc net.Conn
-	td wire.Deframer
+	tc *tconn
 
 	hl  net.Listener
 	hs  *http.Server
@@ -268,7 +282,6 @@ type sockets struct {
 	url string
 
 	wd      time.Duration
-	rawN    int // stream bytes received since the current TCP query was written
 	expired int // delivery waits that expired (the transport is then abandoned)
 }
 
@@ -295,6 +308,8 @@ func (b *built) sockets() (*sockets, error) {
 		s.Close()
 		return nil, err
 	}
+	s.udpIn = make(chan []byte, 64)
+	go udpReader(s.uc, s.udpIn)
 	s.tl, err = net.Listen("tcp4", "127.0.0.1:0")
 	if err != nil {
 		s.Close()
@@ -322,7 +337,7 @@ func (s *sockets) Close() {
 		s.us.Close()
 	}
 	if s.tc != nil {
-		s.tc.Close()
+		s.tc.c.Close()
 	}
 	if s.tl != nil {
 		s.tl.Close()
@@ -335,245 +350,43 @@ func (s *sockets) Close() {
 	}
 }
 
-// waitHandled waits for the "Handle returned" event.
-func (s *sockets) waitHandled(d time.Duration) (handled, bool) {
-	t := time.NewTimer(d)
-	defer t.Stop()
-	select {
-	case ev := <-s.hw.ch:
-		return ev, true
-	case <-t.C:
-		return handled{}, false
-	}
-}
-
-func (s *sockets) readUDP(d time.Duration) []byte {
-	buf := make([]byte, 65536)
-	_ = s.uc.SetReadDeadline(time.Now().Add(d))
-	n, err := s.uc.Read(buf)
-	if err != nil {
-		return nil
-	}
-	return buf[:n]
-}
-
 const deliverWait = 3 * time.Second      // loopback delivery of bytes the handler is known to have returned
+const closeWatchdog = 20 * time.Second   // shutting a composition down
 const settleNone = 25 * time.Millisecond // "no reply" window after the handler is known to have returned nothing
 const settleMore = 2 * time.Millisecond  // "none other" window after the reply
 
-func (s *sockets) udp(qw []byte) arrival {
-	a := arrival{fromUDP: true}
-	s.hw.drain()
-	// a datagram that is already pending belongs to an earlier query (a late
-	// second reply); it must not be attributed to this one
-	for {
-		r := s.readUDP(time.Microsecond)
-		if r == nil {
-			break
-		}
-		a.stray++
-	}
-	if _, err := s.uc.Write(qw); err != nil {
-		a.harness = "udp client write: " + err.Error()
-		return a
-	}
-	ev, ok := s.waitHandled(200 * time.Millisecond)
-	if !ok {
-		// either the server dropped the datagram before the handler (it does not
-		// unpack) or the handler is slow: look at the wire, then wait for the handler
-		if r := s.readUDP(settleNone); r != nil {
-			a.replies = append(a.replies, r)
-		}
-		ev, ok = s.waitHandled(time.Millisecond)
-		if !ok {
-			q := new(dns.Msg)
-			if err := q.Unpack(qw); err != nil {
-				a.note = "server-side unpack failed: " + err.Error()
-				return a
-			}
-			ev, ok = s.waitHandled(s.wd)
-			if !ok {
-				a.harness = "handler did not return within the watchdog"
-				return a
-			}
-		}
-	}
-	if ev.nilPayload {
-		if r := s.readUDP(settleNone); r != nil {
-			a.replies = append(a.replies, r)
-		}
-		return a
-	}
-	if len(a.replies) == 0 {
-		r := s.readUDP(deliverWait)
-		if r == nil {
-			s.expired++
-			a.note = fmt.Sprintf("handler returned a %d-byte payload but no datagram arrived within %v", ev.n, deliverWait)
-			return a
-		}
-		a.replies = append(a.replies, r)
-	}
-	for {
-		r := s.readUDP(settleMore)
-		if r == nil {
-			break
-		}
-		a.replies = append(a.replies, r)
-	}
-	return a
-}
-
-// readFrames reads until the deadline, EOF, `want` frames or (wantBytes > 0)
-// until that many stream bytes have arrived since the query was written.
-func (s *sockets) readFrames(d time.Duration, want int, wantBytes int) (frames [][]byte, eof bool) {
-	buf := make([]byte, 70000)
-	deadline := time.Now().Add(d)
-	for {
-		if wantBytes > 0 && s.rawN >= wantBytes {
-			return frames, false
-		}
-		_ = s.tc.SetReadDeadline(deadline)
-		n, err := s.tc.Read(buf)
-		if n > 0 {
-			s.rawN += n
-			frames = append(frames, s.td.Feed(buf[:n])...)
-		}
-		if err != nil {
-			var ne net.Error
-			if errors.As(err, &ne) && ne.Timeout() {
-				return frames, false
-			}
-			return frames, true
-		}
-		if want > 0 && len(frames) >= want {
-			return frames, false
-		}
-	}
-}
-
-func (s *sockets) tcp(qw []byte, fresh bool) arrival {
-	a := arrival{}
-	for attempt := 0; attempt < 2; attempt++ {
-		if s.tc != nil && (fresh || attempt > 0) {
-			s.tc.Close()
-			s.tc = nil
-		}
-		if s.tc == nil {
-			c, err := net.DialTimeout("tcp4", s.tl.Addr().String(), 5*time.Second)
-			if err != nil {
-				a.harness = "tcp client dial: " + err.Error()
-				return a
-			}
-			s.tc = c
-			s.td = wire.Deframer{}
-		}
-		s.hw.drain()
-		s.rawN = 0
-		if _, err := s.tc.Write(wire.Frame(qw)); err != nil {
-			continue // reused connection was closed by the idle timer: retry on a fresh one
-		}
-		ev, ok := s.waitHandled(300 * time.Millisecond)
-		if !ok {
-			// not (yet) handled: connection closed by the server (frame does not unpack)?
-			frames, eof := s.readFrames(settleNone, 0, 0)
-			a.replies = append(a.replies, frames...)
-			if eof {
-				s.tc.Close()
-				s.tc = nil
-				q := new(dns.Msg)
-				if err := q.Unpack(qw); err != nil {
-					a.note = "server-side unpack failed: " + err.Error()
-					return a
-				}
-				if len(frames) == 0 && attempt == 0 {
-					a = arrival{}
-					continue // stale connection
-				}
-				a.note = "connection closed before the handler ran"
-				return a
-			}
-			ev, ok = s.waitHandled(s.wd)
-			if !ok {
-				a.harness = "handler did not return within the watchdog"
-				return a
-			}
-		}
-		if ev.nilPayload {
-			// the server aborts the connection; anything before EOF is a reply
-			frames, eof := s.readFrames(2*time.Second, 1, 0)
-			a.replies = append(a.replies, frames...)
-			if !eof {
-				a.note = "connection not closed after a nil payload"
-			}
-			s.tc.Close()
-			s.tc = nil
-			return a
-		}
-		if len(a.replies) == 0 {
-			// the handler returned ev.n bytes: exactly those must arrive and be one frame
-			frames, eof := s.readFrames(deliverWait, 0, ev.n)
-			a.replies = append(a.replies, frames...)
-			if len(frames) == 0 {
-				rest := append([]byte(nil), s.td.Rest()...)
-				if s.rawN < ev.n {
-					s.expired++
-					a.note = fmt.Sprintf("handler returned a %d-byte payload but only %d bytes arrived (eof=%v)", ev.n, s.rawN, eof)
-				} else {
-					a.framing = fmt.Sprintf("the %d bytes written for the reply are not one length-prefixed frame (prefix %x)", s.rawN, rest[:min(2, len(rest))])
-					a.replies = append(a.replies, rest)
-				}
-				s.tc.Close()
-				s.tc = nil
-				return a
-			}
-			if eof {
-				s.tc.Close()
-				s.tc = nil
-				return a
-			}
-		}
-		frames, eof := s.readFrames(settleMore, 0, 0)
-		a.replies = append(a.replies, frames...)
-		if eof {
-			s.tc.Close()
-			s.tc = nil
-		}
-		if rest := s.td.Rest(); len(rest) > 0 {
-			a.framing = fmt.Sprintf("%d stray bytes after the reply frame", len(rest))
-			a.replies = append(a.replies, rest)
-			if s.tc != nil {
-				s.tc.Close()
-				s.tc = nil
-			}
-		}
-		return a
-	}
-	a.harness = "tcp client could not send"
-	return a
-}
-
 func (s *sockets) doh(qw []byte, post bool) arrival {
 	a := arrival{}
-	var req *http.Request
-	var err error
-	if post {
-		req, err = http.NewRequest(http.MethodPost, s.url, bytes.NewReader(qw))
-		if err == nil {
-			req.Header.Set("Content-Type", "application/dns-message")
+	var resp *http.Response
+	for attempt := 0; ; attempt++ {
+		var req *http.Request
+		var err error
+		if post {
+			req, err = http.NewRequest(http.MethodPost, s.url, bytes.NewReader(qw))
+			if err == nil {
+				req.Header.Set("Content-Type", "application/dns-message")
+			}
+		} else {
+			req, err = http.NewRequest(http.MethodGet, s.url+"?dns="+base64.RawURLEncoding.EncodeToString(qw), nil)
+			if err == nil {
+				req.Header.Set("Accept", "application/dns-message")
+			}
 		}
-	} else {
-		req, err = http.NewRequest(http.MethodGet, s.url+"?dns="+base64.RawURLEncoding.EncodeToString(qw), nil)
-		if err == nil {
-			req.Header.Set("Accept", "application/dns-message")
+		if err != nil {
+			a.harness = "http request: " + err.Error()
+			return a
 		}
-	}
-	if err != nil {
-		a.harness = "http request: " + err.Error()
-		return a
-	}
-	resp, err := s.hc.Do(req)
-	if err != nil {
-		a.harness = "http client: " + err.Error()
+		resp, err = s.hc.Do(req)
+		if err == nil {
+			break
+		}
+		// client-side failure (stale keep-alive connection, watchdog): re-deliver once
+		s.hc.CloseIdleConnections()
+		if attempt == 0 {
+			rep.Count("socket_redeliveries_doh", 1)
+			continue
+		}
+		a.harness = "http client (also on the re-delivery): " + err.Error() + "; server goroutines:\n" + serverGoroutines()
 		return a
 	}
 	body, err := io.ReadAll(resp.Body)
@@ -595,4 +408,45 @@ func (s *sockets) doh(qw []byte, post bool) arrival {
 		}
 	}
 	return a
+}
+
+var closeHangs struct {
+	sync.Mutex
+	n     int
+	stack string
+	comps []int
+}
+
+// noteCloseHang records that shutting down a composition's plugins did not
+// finish; the first occurrence keeps the mosdns frames of the blocked goroutines.
+func noteCloseHang(c *Comp) {
+	closeHangs.Lock()
+	defer closeHangs.Unlock()
+	closeHangs.n++
+	if len(closeHangs.comps) < 20 {
+		closeHangs.comps = append(closeHangs.comps, c.Idx)
+	}
+	if closeHangs.stack != "" {
+		return
+	}
+	buf := make([]byte, 4<<20)
+	buf = buf[:runtime.Stack(buf, true)]
+	var keep []string
+	for _, g := range strings.Split(string(buf), "\n\n") {
+		if !strings.Contains(g, "mosdns/v5/pkg/upstream") && !strings.Contains(g, "safe_close") {
+			continue
+		}
+		if !strings.Contains(g, "Lock") && !strings.Contains(g, "semacquire") && !strings.Contains(g, "WaitClosed") {
+			continue
+		}
+		lines := strings.Split(g, "\n")
+		if len(lines) > 24 {
+			lines = lines[:24]
+		}
+		keep = append(keep, strings.Join(lines, "\n"))
+		if len(keep) >= 6 {
+			break
+		}
+	}
+	closeHangs.stack = strings.Join(keep, "\n\n")
 }
